@@ -112,7 +112,12 @@ def lower(plan, rundir):
                                  for k, p, v in ev if k == 'UID']
                     byuid = {}
                     for tid in op['tasks']:
-                        byuid.setdefault(tasks[tid]['spec'].get('uid'), []).append(tid)
+                        tk = tasks[tid]
+                        if op.get('via', 'echsq') == 'echsq' and tk.get('family') == 'arith' \
+                                and not ical.has_any_occurrence(tk['spec']):
+                            # echsq does not transmit a task without any occurrence
+                            continue
+                        byuid.setdefault(tk['spec'].get('uid'), []).append(tid)
                     for u in wire_uids:
                         if byuid.get(u):
                             info['instr'].append(('add', u, byuid[u].pop(0)))
